@@ -13,4 +13,25 @@ namespace Romea.Hidden.C18
 
 theorem hidden_state_as_recorded : Romea.Generated.C18.hiddenState = [] := by rfl
 
+/-- The names (not only the types) of what every translated function reads, carries through its loops and returns are those
+    the bridge theorems were written against: a function that now reads or writes ANOTHER member of the same type keeps its Lean
+    type, and a positional application in a bridge would keep checking. -/
+theorem signatures_as_recorded : Romea.Generated.C18.signatures = [
+    "worse (status1 status2) result: ret",
+    "Checkup.setDiagnostic_ (messageEnd report__info_begin_first status) result: report__diagnostics_front_message', report__diagnostics_front_status'",
+    "Checkup.setValue_ (toStringInfoValue value) result: report__info_begin_second'",
+    "Checkup.getStatus_ (report__diagnostics_front_status) result: ret",
+    "CheckupEqualTo.evaluate (epsilon_ report__info_begin_first toStringInfoValue value value_to_compare_with_) result: ret, report__diagnostics_front_message', report__diagnostics_front_status', report__info_begin_second'",
+    "CheckupGreaterThan.evaluate (epsilon_ report__info_begin_first toStringInfoValue value value_to_compare_with_) result: ret, report__diagnostics_front_message', report__diagnostics_front_status', report__info_begin_second'",
+    "CheckupLowerThan.evaluate (epsilon_ report__info_begin_first toStringInfoValue value value_to_compare_with_) result: ret, report__diagnostics_front_message', report__diagnostics_front_status', report__info_begin_second'",
+    "CheckupReliability.setDiagnostic_ (messageEnd report__info_begin_first status) result: report__diagnostics_front_message', report__diagnostics_front_status'",
+    "CheckupReliability.setRelabilityValue_ (reliability toStringInfoValue) result: report__info_begin_second'",
+    "CheckupReliability.evaluate (high_reliability_theshold_ low_reliability_theshold_ reliability report__info_begin_first toStringInfoValue) result: ret, report__diagnostics_front_message', report__diagnostics_front_status', report__info_begin_second'",
+    "Checkup.timeout (report__info_begin_first) result: report__diagnostics_front_message', report__diagnostics_front_status', report__info_begin_second'",
+    "worseStatus.loop1 (diagnostics) carried: it, status",
+    "worseStatus (fuel diagnostics) result: ret (none = fuel exhausted)",
+    "allOK (fuel diagnostics) result: ret (none = fuel exhausted)",
+    "mapInsertNew ()",
+    "operator_addAssign (report1_diagnostics report1_info report2_diagnostics report2_info) result: report1_diagnostics', report1_info'"] := by rfl
+
 end Romea.Hidden.C18
